@@ -521,7 +521,7 @@ static bool vec_equal(char *const *v, const std::vector<std::string> &snap, bool
 extern "C" __attribute__((visibility("default"))) int sim_exec_cb(int api, const char *path, char *const argv[], char *const envp[]) {
     int was = t_in_sut; t_in_sut = 0;
     OpState *st = t_op;
-    if (!st) { g_probe_seen++; errno = ENOENT; return -1; }
+    if (!st) { g_probe_seen++; t_in_sut = was; errno = ENOENT; return -1; }
     ExecObs &o = *st->obs;
     SimScope sc;
     o.real_calls++;
